@@ -8,9 +8,51 @@ Import ListNotations.
 
 Opaque name_of blake2b_256 b64url crc64 uint_layer_fuel.
 
+Section FMT.
+Variable fmt : nfmt.
+Local Notation clone_allh := (Reload.clone_allh fmt) (only parsing).
+Local Notation cycles_ok := (Reload.cycles_ok fmt) (only parsing).
+Local Notation delete_allh := (Reload.delete_allh fmt) (only parsing).
+Local Notation entry_ok := (Reload.entry_ok fmt) (only parsing).
+Local Notation first_node_allh := (Reload.first_node_allh fmt) (only parsing).
+Local Notation flush_nonnil := (Reload.flush_nonnil fmt) (only parsing).
+Local Notation grow_allh := (Reload.grow_allh fmt) (only parsing).
+Local Notation grow_loop_allh := (Reload.grow_loop_allh fmt) (only parsing).
+Local Notation insert_allh := (Reload.insert_allh fmt) (only parsing).
+Local Notation kv_ok := (Reload.kv_ok fmt) (only parsing).
+Local Notation list_ok := (Reload.list_ok fmt) (only parsing).
+Local Notation list_ok_incl := (Reload.list_ok_incl fmt) (only parsing).
+Local Notation list_ok_remove := (Reload.list_ok_remove fmt) (only parsing).
+Local Notation load_canon := (Reload.load_canon fmt) (only parsing).
+Local Notation load_canon_empty := (Reload.load_canon_empty fmt) (only parsing).
+Local Notation name_ok := (Reload.name_ok fmt) (only parsing).
+Local Notation pcond := (Reload.pcond fmt) (only parsing).
+Local Notation pconds := (Reload.pconds fmt) (only parsing).
+Local Notation persist_then_load := (Reload.persist_then_load fmt) (only parsing).
+Local Notation pinv := (Reload.pinv fmt) (only parsing).
+Local Notation prun := (Reload.prun fmt) (only parsing).
+Local Notation pstep := (Reload.pstep fmt) (only parsing).
+Local Notation pstep_ok := (Reload.pstep_ok fmt) (only parsing).
+Local Notation resolve_sto := (Reload.resolve_sto fmt) (only parsing).
+Local Notation root_allh := (Reload.root_allh fmt) (only parsing).
+Local Notation root_allh_mono := (Reload.root_allh_mono fmt) (only parsing).
+Local Notation root_allh_of_node := (Reload.root_allh_of_node fmt) (only parsing).
+Local Notation root_node_allh := (Reload.root_node_allh fmt) (only parsing).
+Local Notation set_size_allh := (Reload.set_size_allh fmt) (only parsing).
+Local Notation shrink_allh := (Reload.shrink_allh fmt) (only parsing).
+Local Notation shrink_loop_allh := (Reload.shrink_loop_allh fmt) (only parsing).
+Local Notation stl := (Reload.stl fmt) (only parsing).
+Local Notation sto := (Reload.sto fmt) (only parsing).
+Local Notation sto_hered := (Reload.sto_hered fmt) (only parsing).
+Local Notation sto_l := (Reload.sto_l fmt) (only parsing).
+Local Notation sto_l_mono := (Reload.sto_l_mono fmt) (only parsing).
+Local Notation sto_mono := (Reload.sto_mono fmt) (only parsing).
+Local Notation sto_mono' := (Reload.sto_mono' fmt) (only parsing).
+Local Notation store_node_sto := (Reload.store_node_sto fmt) (only parsing).
+
 (** * a captured root that loads back to l from any store extending S *)
 Definition good_root (S : store) (kind bf : N) (l : list (key * val)) (rt : root) : Prop :=
-  r_fmt rt = fmt_bin /\ r_bf rt = bf /\ r_size rt = N.of_nat (length l) /\ (2 <= bf)%N /\
+  r_fmt rt = (fmt_string fmt) /\ r_bf rt = bf /\ r_size rt = N.of_nat (length l) /\ (2 <= bf)%N /\
   ssorted key val kcmp l /\ hrule key val (klayer bf) bf l (r_height rt) /\
   match r_link rt with
   | None => l = [] /\ r_height rt = 0
@@ -24,7 +66,7 @@ Proof.
 Qed.
 
 Lemma load_good S kind bf l rt : good_root S kind bf l rt ->
-  oks (load_mast S kind rt) (fun r => fst r = FBin /\ kcanon bf (snd r) l /\ root_allh S kind (snd r)).
+  oks (load_mast S kind rt) (fun r => fst r = fmt /\ kcanon bf (snd r) l /\ root_allh S kind (snd r)).
 Proof.
   intros (A & B & C & D & E & F & G). destruct rt as [lk sz hh bf' fm]. cbn [r_fmt r_bf r_size r_height r_link] in *. subst fm bf'.
   destruct lk as [h|].
@@ -38,7 +80,7 @@ Qed.
     its links are in the resulting store *)
 Lemma make_root_good s kind bf (m : kmast) l t rt m' :
   kcanon bf m l -> root_allh s kind m -> list_ok kind l ->
-  make_root FBin m = (t, Ok (rt, m')) -> nocoll s t ->
+  make_root fmt m = (t, Ok (rt, m')) -> nocoll s t ->
   good_root (apply_stores s t) kind bf l rt /\ kcanon bf m' l /\ root_allh (apply_stores s t) kind m'.
 Proof.
   intros C Hall Hlo E Hn.
@@ -55,9 +97,9 @@ Proof.
             (forall s0, apply_stores s0 tl = s0) -> (forall s0 t0, nocoll s0 (tl ++ t0) -> nocoll s0 t0) ->
             (let* n0 := load _ _ r in
              if is_empty _ _ n0 then ret (None, m)
-             else let* (h, n') := store_node (S (S (m_height _ _ m))) FBin n0 in
+             else let* (h, n') := store_node (S (S (m_height _ _ m))) fmt n0 in
                   ret (Some h, set_root _ _ m (LHash h n') (m_emptied _ _ m))) = (t1, Ok (lk, m1)) ->
-            good_root (apply_stores s t1) kind bf l (Root lk (m_size _ _ m1) (m_height _ _ m1) (m_bf _ _ m1) (fmt_string FBin)) /\
+            good_root (apply_stores s t1) kind bf l (Root lk (m_size _ _ m1) (m_height _ _ m1) (m_bf _ _ m1) (fmt_string fmt)) /\
             kcanon bf m1 l /\ root_allh (apply_stores s t1) kind m1).
   { intros r tl Eroot Hrn' Hld Htl Hntl Ef'.
     apply bind_ok_inv in Ef'. destruct Ef' as (tl' & n0 & t2 & El & Ef' & ->).
@@ -79,7 +121,7 @@ Proof.
         - apply (root_node_allh s kind r); [rewrite <- Eroot; exact Hall|exact Hrn'].
         - rewrite Hlist. exact Hlo. }
       assert (Her : erase_n _ _ n' = erase_n _ _ n).
-      { destruct (store_node_erase _ FBin n Hfits) as (t0 & r0 & E0 & H0). rewrite Est in E0. inversion E0; subst. exact H0. }
+      { destruct (store_node_erase _ fmt n Hfits) as (t0 & r0 & E0 & H0). rewrite Est in E0. inversion E0; subst. exact H0. }
       cbn [set_root m_size m_height m_bf m_root].
       split; [|split].
       + unfold good_root. cbn [r_fmt r_bf r_size r_height r_link]. rewrite Hbfe.
@@ -103,8 +145,10 @@ Proof.
   - discriminate.
 Qed.
 
+End FMT.
+
 (** * the abstract world: contents, branch factor, store and key kind of every tree and root *)
-Record atree := ATree { at_bf : N; at_l : kvl; at_s : N; at_kind : N }.
+Record atree := ATree { at_bf : N; at_l : kvl; at_s : N; at_kind : N; at_fmt : nfmt }.
 Definition aworld2 := (list (N * atree) * list (N * atree))%type.   (* trees, captured roots *)
 
 Inductive aobs2 := BFail (c : N) | BOk | BVal (v : option val) | BNum (n : N) | BList (l : kvl) | BRoot (size : N) | BDiff (l : list dobs) | BEntry (e : option (key * val)).
@@ -124,15 +168,15 @@ Definition old_list (a : aworld2) (told : option N) : kvl :=
 Definition astep2 (a : aworld2) (o : op) : aworld2 * aobs2 :=
   let (tr, ro) := a in
   match o with
-  | ONew t s bf _ kind => ((aset tr t (ATree (eff_bf bf) [] s kind), ro), BOk)
+  | ONew t s bf f kind => ((aset tr t (ATree (eff_bf bf) [] s kind (match f with Some x => x | None => FBin end)), ro), BOk)
   | OIns t k v => match aget tr t with
-                  | Some x => ((aset tr t (ATree (at_bf x) (aupsert k v (at_l x)) (at_s x) (at_kind x)), ro), BOk)
+                  | Some x => ((aset tr t (ATree (at_bf x) (aupsert k v (at_l x)) (at_s x) (at_kind x) (at_fmt x)), ro), BOk)
                   | None => (a, BFail 9) end
   | ODel t k v =>
       match aget tr t with
       | Some x =>
           match alookup k (at_l x) with
-          | Some v' => if bytes_eqb v' v then ((aset tr t (ATree (at_bf x) (aremove k (at_l x)) (at_s x) (at_kind x)), ro), BOk) else (a, BFail 1)
+          | Some v' => if bytes_eqb v' v then ((aset tr t (ATree (at_bf x) (aremove k (at_l x)) (at_s x) (at_kind x) (at_fmt x)), ro), BOk) else (a, BFail 1)
           | None => (a, BFail 1)
           end
       | None => (a, BFail 9)
@@ -157,20 +201,20 @@ Definition astep2 (a : aworld2) (o : op) : aworld2 * aobs2 :=
   | _ => (a, BFail 9)
   end.
 
-(* side conditions on the abstract side: binary format, element encodings that round-trip under the
+(* side conditions on the abstract side: element encodings that round-trip under the
    tree's key kind, reload from the store and with the key kind the root was made with, diffs
    between trees over one store *)
 Definition same_home (a : aworld2) (tn : N) (told : option N) : Prop :=
   match told with
   | Some i => match aget (fst a) tn, aget (fst a) i with
-              | Some x, Some y => at_s x = at_s y /\ at_kind x = at_kind y
+              | Some x, Some y => at_s x = at_s y /\ at_kind x = at_kind y /\ at_fmt x = at_fmt y
               | _, _ => True end
   | None => True
   end.
 Definition sup (a : aworld2) (o : op) : Prop :=
   match o with
-  | ONew _ _ bf f _ => (f = None \/ f = Some FBin) /\ (2 <= eff_bf bf)%N
-  | OIns t k v => match aget (fst a) t with Some x => list_ok (at_kind x) (aupsert k v (at_l x)) | None => True end
+  | ONew _ _ bf _ _ => (2 <= eff_bf bf)%N
+  | OIns t k v => match aget (fst a) t with Some x => Reload.list_ok (at_fmt x) (at_kind x) (aupsert k v (at_l x)) | None => True end
   | ODel _ _ _ | OGet _ _ | OSize _ | OIter _ | OIterStop _ _ | OSeek _ _ | OSeekStop _ _ _ | OClone _ _ | OMakeRoot _ _ => True
   | OLoad r _ s kind => match aget (snd a) r with Some x => at_s x = s /\ at_kind x = kind | None => True end
   | ODiff tn told | ODiffCur tn told | ODiffStop tn told _ | ODiffFail tn told _ => same_home a tn told
@@ -186,10 +230,10 @@ Definition ncoll (w : world) (o : op) : Prop :=
   end.
 
 Definition tree_ok (w : world) (tr : tree) (x : atree) : Prop :=
-  kcanon (at_bf x) (t_m tr) (at_l x) /\ t_cfg tr = TCfg FBin (at_kind x) (at_s x) /\
-  root_allh (get_store w (at_s x)) (at_kind x) (t_m tr) /\ list_ok (at_kind x) (at_l x).
+  kcanon (at_bf x) (t_m tr) (at_l x) /\ t_cfg tr = TCfg (at_fmt x) (at_kind x) (at_s x) /\
+  Reload.root_allh (at_fmt x) (get_store w (at_s x)) (at_kind x) (t_m tr) /\ Reload.list_ok (at_fmt x) (at_kind x) (at_l x).
 Definition root_ok (w : world) (rt : root) (x : atree) : Prop :=
-  good_root (get_store w (at_s x)) (at_kind x) (at_bf x) (at_l x) rt /\ list_ok (at_kind x) (at_l x).
+  good_root (at_fmt x) (get_store w (at_s x)) (at_kind x) (at_bf x) (at_l x) rt /\ Reload.list_ok (at_fmt x) (at_kind x) (at_l x).
 
 Definition winv2 (w : world) (a : aworld2) : Prop :=
   (forall t, match aget (w_trees w) t, aget (fst a) t with
@@ -205,9 +249,9 @@ Definition grows (w w' : world) : Prop := forall s, extends (get_store w s) (get
 Lemma grows_refl w : grows w w. Proof. intros s. apply extends_refl. Qed.
 
 Lemma tree_ok_grows w w' tr x : grows w w' -> tree_ok w tr x -> tree_ok w' tr x.
-Proof. intros G (A & B & C & D). exact (conj A (conj B (conj (root_allh_mono _ _ _ _ (G (at_s x)) C) D))). Qed.
+Proof. intros G (A & B & C & D). exact (conj A (conj B (conj (Reload.root_allh_mono _ _ _ _ _ (G (at_s x)) C) D))). Qed.
 Lemma root_ok_grows w w' rt x : grows w w' -> root_ok w rt x -> root_ok w' rt x.
-Proof. intros G (A & B). split; [exact (good_root_mono _ _ _ _ _ _ (G (at_s x)) A)|exact B]. Qed.
+Proof. intros G (A & B). split; [exact (good_root_mono _ _ _ _ _ _ _ (G (at_s x)) A)|exact B]. Qed.
 
 (* replacing trees and roots of a world whose stores grow *)
 Lemma winv2_update w w' a t tr x :
@@ -251,7 +295,7 @@ Proof.
   - rewrite get_store_set_other by exact Hne. apply extends_refl.
 Qed.
 
-Lemma list_ok_nil kind : list_ok kind [].
+Lemma list_ok_nil f kind : Reload.list_ok f kind [].
 Proof. split; [constructor|]. unfold small. cbn. lia. Qed.
 
 (* entry events as observed *)
@@ -265,6 +309,47 @@ Proof.
   destruct rl, al; reflexivity.
 Qed.
 
+Section FMT2.
+Variable fmt : nfmt.
+Local Notation clone_allh := (Reload.clone_allh fmt) (only parsing).
+Local Notation cycles_ok := (Reload.cycles_ok fmt) (only parsing).
+Local Notation delete_allh := (Reload.delete_allh fmt) (only parsing).
+Local Notation entry_ok := (Reload.entry_ok fmt) (only parsing).
+Local Notation first_node_allh := (Reload.first_node_allh fmt) (only parsing).
+Local Notation flush_nonnil := (Reload.flush_nonnil fmt) (only parsing).
+Local Notation grow_allh := (Reload.grow_allh fmt) (only parsing).
+Local Notation grow_loop_allh := (Reload.grow_loop_allh fmt) (only parsing).
+Local Notation insert_allh := (Reload.insert_allh fmt) (only parsing).
+Local Notation kv_ok := (Reload.kv_ok fmt) (only parsing).
+Local Notation list_ok := (Reload.list_ok fmt) (only parsing).
+Local Notation list_ok_incl := (Reload.list_ok_incl fmt) (only parsing).
+Local Notation list_ok_remove := (Reload.list_ok_remove fmt) (only parsing).
+Local Notation load_canon := (Reload.load_canon fmt) (only parsing).
+Local Notation load_canon_empty := (Reload.load_canon_empty fmt) (only parsing).
+Local Notation name_ok := (Reload.name_ok fmt) (only parsing).
+Local Notation pcond := (Reload.pcond fmt) (only parsing).
+Local Notation pconds := (Reload.pconds fmt) (only parsing).
+Local Notation persist_then_load := (Reload.persist_then_load fmt) (only parsing).
+Local Notation pinv := (Reload.pinv fmt) (only parsing).
+Local Notation prun := (Reload.prun fmt) (only parsing).
+Local Notation pstep := (Reload.pstep fmt) (only parsing).
+Local Notation pstep_ok := (Reload.pstep_ok fmt) (only parsing).
+Local Notation resolve_sto := (Reload.resolve_sto fmt) (only parsing).
+Local Notation root_allh := (Reload.root_allh fmt) (only parsing).
+Local Notation root_allh_mono := (Reload.root_allh_mono fmt) (only parsing).
+Local Notation root_allh_of_node := (Reload.root_allh_of_node fmt) (only parsing).
+Local Notation root_node_allh := (Reload.root_node_allh fmt) (only parsing).
+Local Notation set_size_allh := (Reload.set_size_allh fmt) (only parsing).
+Local Notation shrink_allh := (Reload.shrink_allh fmt) (only parsing).
+Local Notation shrink_loop_allh := (Reload.shrink_loop_allh fmt) (only parsing).
+Local Notation stl := (Reload.stl fmt) (only parsing).
+Local Notation sto := (Reload.sto fmt) (only parsing).
+Local Notation sto_hered := (Reload.sto_hered fmt) (only parsing).
+Local Notation sto_l := (Reload.sto_l fmt) (only parsing).
+Local Notation sto_l_mono := (Reload.sto_l_mono fmt) (only parsing).
+Local Notation sto_mono := (Reload.sto_mono fmt) (only parsing).
+Local Notation sto_mono' := (Reload.sto_mono' fmt) (only parsing).
+Local Notation store_node_sto := (Reload.store_node_sto fmt) (only parsing).
 (* the entry diff of two trees of one store, whatever their branch factors and heights *)
 Lemma k_diff_any s kind bfo bfn (lay : key -> nat) (o : option kmast) (mn : kmast) lo ln :
   kcanon bfn mn ln -> root_allh s kind mn ->
@@ -276,7 +361,7 @@ Proof.
   assert (crefl : forall k, kcmp k k = Eq) by (intros k; apply kcmp_eq; reflexivity).
   assert (Hpre : forall t, o = Some t -> allh_l key val (sto s kind) (m_root _ _ t) /\ fitsl_of key val (fits key val (S (m_height _ _ t))) (m_root _ _ t)).
   { intros t E. destruct (Ho t E) as [Co Hao]. split; [exact Hao|]. exact (proj1 (canon_root_fits key val kcmp (klayer bfo) bfo t lo Co)). }
-  eapply oks_weaken; [exact (diff_entries key val kcmp bytes_eqb lay crefl bytes_eqb_refl (sto s kind) (sto_hered s kind) (sto_fun s kind) o mn Hn Fn Hpre)|].
+  eapply oks_weaken; [exact (diff_entries key val kcmp bytes_eqb lay crefl bytes_eqb_refl (sto s kind) (sto_hered s kind) (sto_fun fmt s kind) o mn Hn Fn Hpre)|].
   intros r Hr. rewrite entries_only_flat, Hr. unfold sdiff_obs. rewrite Ln.
   assert (Eo : olist key val o = lo).
   { destruct o as [mo|]; cbn [olist].
@@ -284,6 +369,8 @@ Proof.
     - symmetry. apply Hnone. reflexivity. }
   rewrite Eo. reflexivity.
 Qed.
+
+End FMT2.
 
 Lemma winv2_set_tree w a t tr x : winv2 w a -> tree_ok w tr x -> winv2 (set_tree w t tr) (aset (fst a) t x, snd a).
 Proof.
@@ -297,14 +384,14 @@ Proof. intros (C & _). exact (cn_bfeq _ _ _ _ _ _ _ C). Qed.
 Lemma old_side w a tn told xn trn :
   winv2 w a -> same_home a tn told -> aget (fst a) tn = Some xn -> aget (w_trees w) tn = Some trn ->
   let o := match told with Some i => option_map t_m (aget (w_trees w) i) | None => None end in
-  exists bfo, (forall mo, o = Some mo -> kcanon bfo mo (old_list a told) /\ root_allh (get_store w (at_s xn)) (at_kind xn) mo) /\
+  exists bfo, (forall mo, o = Some mo -> kcanon bfo mo (old_list a told) /\ Reload.root_allh (at_fmt xn) (get_store w (at_s xn)) (at_kind xn) mo) /\
               (o = None -> old_list a told = []).
 Proof.
   intros [HT _] Hh Ea Et o. subst o. destruct told as [i|]; cbn [old_list].
   - specialize (HT i). cbn [same_home] in Hh. rewrite Ea in Hh.
     destruct (aget (w_trees w) i) as [tri|] eqn:Ei; destruct (aget (fst a) i) as [xi|] eqn:Eai; try contradiction.
-    + destruct Hh as [Hs Hk]. destruct HT as (C & _ & Hall & _). exists (at_bf xi). split.
-      * intros mo E. cbn [option_map] in E. inversion E; subst mo. rewrite Hs, Hk. split; assumption.
+    + destruct Hh as (Hs & Hk & Hf). destruct HT as (C & _ & Hall & _). exists (at_bf xi). split.
+      * intros mo E. cbn [option_map] in E. inversion E; subst mo. rewrite Hs, Hk, Hf. split; assumption.
       * intros E. discriminate E.
     + exists 2%N. split; [intros mo E; discriminate E|reflexivity].
   - exists 2%N. split; [intros mo E; discriminate E|reflexivity].
@@ -319,20 +406,19 @@ Proof.
   intros Hinv Hs Hnc. destruct a as [atr aro]. pose proof Hinv as [HT HR]. cbn [fst snd] in HT, HR.
   destruct o; cbn [sup] in Hs; try contradiction; cbn [step astep2]; unfold with_tree.
   - (* ONew *)
-    destruct Hs as [Hf Hbf]. unfold load_mast, new_root. cbn [r_fmt r_link r_height r_size r_bf].
-    assert (Hfm : parse_fmt (fmt_string match f with Some x => x | None => FBin end) = Some FBin) by (destruct Hf as [->| ->]; reflexivity).
-    rewrite Hfm. cbn [load bind ret check_keys pow_N n_es fresh_node app fst snd]. fold (eff_bf bf). split; [|reflexivity].
-    apply (winv2_set_tree w (atr, aro) t _ (ATree (eff_bf bf) [] s kind) Hinv).
-    refine (conj _ (conj eq_refl (conj _ (list_ok_nil kind)))); cbn [t_m at_bf at_l at_s at_kind].
+    rename Hs into Hbf. unfold load_mast, new_root. cbn [r_fmt r_link r_height r_size r_bf].
+    rewrite parse_fmt_string. cbn [load bind ret check_keys pow_N n_es fresh_node app fst snd]. fold (eff_bf bf). split; [|reflexivity].
+    apply (winv2_set_tree w (atr, aro) t _ (ATree (eff_bf bf) [] s kind (match f with Some x => x | None => FBin end)) Hinv).
+    refine (conj _ (conj eq_refl (conj _ (list_ok_nil _ kind)))); cbn [t_m at_bf at_l at_s at_kind at_fmt].
     + exact (empty_canon key val kcmp (klayer (eff_bf bf)) (eff_bf bf) false Hbf).
-    + unfold root_allh. cbn [m_root]. constructor. apply allh_fresh.
+    + unfold Reload.root_allh. cbn [m_root]. constructor. apply allh_fresh.
   - (* OIns *)
     specialize (HT t). destruct (aget (w_trees w) t) as [tr|] eqn:Et; destruct (aget atr t) as [x|] eqn:Ea; try contradiction; [|split; [exact Hinv|reflexivity]].
     cbn [fst] in Hs. rewrite Ea in Hs. pose proof (tree_bf _ _ _ HT) as Hb. destruct HT as (C & Hcfg & Hall & Hlo).
     unfold upd, layer_of. rewrite Hb.
     destruct (k_insert_ok (at_bf x) (t_m tr) (at_l x) k v C) as (tr' & m' & E & C'). rewrite E. split; [|reflexivity].
-    apply (winv2_set_tree w (atr, aro) t _ (ATree (at_bf x) (aupsert k v (at_l x)) (at_s x) (at_kind x)) Hinv).
-    refine (conj C' (conj Hcfg (conj _ Hs))). exact (insert_allh _ _ (at_bf x) (t_m tr) k v Hall tr' m' E).
+    apply (winv2_set_tree w (atr, aro) t _ (ATree (at_bf x) (aupsert k v (at_l x)) (at_s x) (at_kind x) (at_fmt x)) Hinv).
+    refine (conj C' (conj Hcfg (conj _ Hs))). exact (Reload.insert_allh _ _ _ (at_bf x) (t_m tr) k v Hall tr' m' E).
   - (* ODel *)
     specialize (HT t). destruct (aget (w_trees w) t) as [tr|] eqn:Et; destruct (aget atr t) as [x|] eqn:Ea; try contradiction; [|split; [exact Hinv|reflexivity]].
     pose proof (tree_bf _ _ _ HT) as Hb. destruct HT as (C & Hcfg & Hall & Hlo).
@@ -341,10 +427,10 @@ Proof.
     + destruct (bytes_eqb v' v) eqn:Ev.
       * apply bytes_eqb_eq in Ev. subst v'.
         destruct (k_delete_ok (at_bf x) (t_m tr) (at_l x) k v C El) as (tr' & m' & E & C'). rewrite E. split; [|reflexivity].
-        apply (winv2_set_tree w (atr, aro) t _ (ATree (at_bf x) (aremove k (at_l x)) (at_s x) (at_kind x)) Hinv).
+        apply (winv2_set_tree w (atr, aro) t _ (ATree (at_bf x) (aremove k (at_l x)) (at_s x) (at_kind x) (at_fmt x)) Hinv).
         refine (conj C' (conj Hcfg (conj _ _))).
-        -- exact (delete_allh _ _ (at_bf x) (t_m tr) k v Hall tr' m' E).
-        -- apply list_ok_remove; [exact (cn_sorted _ _ _ _ _ _ _ C)|exact Hlo].
+        -- exact (Reload.delete_allh _ _ _ (at_bf x) (t_m tr) k v Hall tr' m' E).
+        -- apply Reload.list_ok_remove; [exact (cn_sorted _ _ _ _ _ _ _ C)|exact Hlo].
       * assert (Hne : alookup k (at_l x) <> Some v).
         { rewrite El. intros H. inversion H; subst. rewrite (proj2 (bytes_eqb_eq v v) eq_refl) in Ev. discriminate. }
         destruct (k_delete_fail (at_bf x) (t_m tr) (at_l x) k v C Hne) as (tr' & E). rewrite E. split; [exact Hinv|reflexivity].
@@ -371,17 +457,17 @@ Proof.
     destruct HT as (C & Hcfg & Hall & Hlo).
     destruct (k_clone_ok (at_bf x) (t_m tr) (at_l x) C) as (tr' & m' & E & C'). rewrite E. split; [|reflexivity].
     apply (winv2_set_tree w (atr, aro) t2 _ x Hinv).
-    refine (conj C' (conj Hcfg (conj _ Hlo))). exact (clone_allh _ _ (t_m tr) Hall tr' m' E).
+    refine (conj C' (conj Hcfg (conj _ Hlo))). exact (Reload.clone_allh _ _ _ (t_m tr) Hall tr' m' E).
   - (* OMakeRoot *)
     specialize (HT t). destruct (aget (w_trees w) t) as [tr|] eqn:Et; destruct (aget atr t) as [x|] eqn:Ea; try contradiction; [|split; [exact Hinv|reflexivity]].
     destruct HT as (C & Hcfg & Hall & Hlo). cbn [ncoll] in Hnc. specialize (Hnc tr). rewrite Hcfg in *. cbn [c_fmt c_store] in *.
-    destruct (k_make_root_ok (at_bf x) FBin (t_m tr) (at_l x) C) as (tt & [rt m'] & E & _). rewrite E.
-    destruct (make_root_good _ (at_kind x) (at_bf x) (t_m tr) (at_l x) tt rt m' C Hall Hlo E (Hnc tt (rt, m') Et E)) as (Hg & C' & Hall').
+    destruct (k_make_root_ok (at_bf x) (at_fmt x) (t_m tr) (at_l x) C) as (tt & [rt m'] & E & _). rewrite E.
+    destruct (make_root_good _ _ (at_kind x) (at_bf x) (t_m tr) (at_l x) tt rt m' C Hall Hlo E (Hnc tt (rt, m') Et E)) as (Hg & C' & Hall').
     set (S' := apply_stores (get_store w (at_s x)) tt) in *.
-    set (w1 := set_tree (set_store w (at_s x) S') t (Tree (TCfg FBin (at_kind x) (at_s x)) m')).
+    set (w1 := set_tree (set_store w (at_s x) S') t (Tree (TCfg (at_fmt x) (at_kind x) (at_s x)) m')).
     assert (Hs1 : get_store w1 (at_s x) = S') by (unfold w1; rewrite get_store_set_tree; apply get_store_set_same).
     assert (I1 : winv2 w1 (aset atr t x, aro)).
-    { apply (winv2_update w w1 (atr, aro) t (Tree (TCfg FBin (at_kind x) (at_s x)) m') x Hinv).
+    { apply (winv2_update w w1 (atr, aro) t (Tree (TCfg (at_fmt x) (at_kind x) (at_s x)) m') x Hinv).
       - intros s2. unfold w1. rewrite get_store_set_tree. apply grows_set_store.
       - reflexivity.
       - reflexivity.
@@ -401,28 +487,28 @@ Proof.
   - (* OLoad *)
     specialize (HR r). destruct (aget (w_roots w) r) as [rt|] eqn:Er; destruct (aget aro r) as [x|] eqn:Ea; try contradiction; [|split; [exact Hinv|reflexivity]].
     cbn [snd] in Hs. rewrite Ea in Hs. destruct Hs as [<- <-]. destruct HR as [Hg Hlo].
-    destruct (load_good _ _ _ _ _ Hg) as (tt & [fm m] & E & Hfm & C & Hall). cbn [fst snd] in *. subst fm. rewrite E. split; [|reflexivity].
+    destruct (load_good _ _ _ _ _ _ Hg) as (tt & [fm m] & E & Hfm & C & Hall). cbn [fst snd] in *. subst fm. rewrite E. split; [|reflexivity].
     apply (winv2_set_tree w (atr, aro) t _ x Hinv).
     exact (conj C (conj eq_refl (conj Hall Hlo))).
   - (* ODiff *)
     specialize (HT tn) as HTn. destruct (aget (w_trees w) tn) as [trn|] eqn:Et; destruct (aget atr tn) as [xn|] eqn:Ea; try contradiction; [|split; [exact Hinv|reflexivity]].
     destruct (old_side w (atr, aro) tn told xn trn Hinv Hs Ea Et) as (bfo & Ho & Hnone). destruct HTn as (C & _ & Hall & _).
-    unfold ro. destruct (k_diff_any _ _ bfo (at_bf xn) (layer_of (t_m trn)) _ (t_m trn) _ (at_l xn) C Hall Ho Hnone) as (tt & r & E & Hr).
+    unfold ro. destruct (k_diff_any _ _ _ bfo (at_bf xn) (layer_of (t_m trn)) _ (t_m trn) _ (at_l xn) C Hall Ho Hnone) as (tt & r & E & Hr).
     rewrite E. split; [exact Hinv|]. cbn [pobs]. rewrite Hr. reflexivity.
   - (* ODiffStop *)
     specialize (HT tn) as HTn. destruct (aget (w_trees w) tn) as [trn|] eqn:Et; destruct (aget atr tn) as [xn|] eqn:Ea; try contradiction; [|split; [exact Hinv|reflexivity]].
     destruct (old_side w (atr, aro) tn told xn trn Hinv Hs Ea Et) as (bfo & Ho & Hnone). destruct HTn as (C & _ & Hall & _).
-    unfold ro. destruct (k_diff_any _ _ bfo (at_bf xn) (layer_of (t_m trn)) _ (t_m trn) _ (at_l xn) C Hall Ho Hnone) as (tt & r & E & Hr).
+    unfold ro. destruct (k_diff_any _ _ _ bfo (at_bf xn) (layer_of (t_m trn)) _ (t_m trn) _ (at_l xn) C Hall Ho Hnone) as (tt & r & E & Hr).
     rewrite E. split; [exact Hinv|]. cbn [pobs]. rewrite Hr. reflexivity.
   - (* ODiffFail *)
     specialize (HT tn) as HTn. destruct (aget (w_trees w) tn) as [trn|] eqn:Et; destruct (aget atr tn) as [xn|] eqn:Ea; try contradiction; [|split; [exact Hinv|reflexivity]].
     destruct (old_side w (atr, aro) tn told xn trn Hinv Hs Ea Et) as (bfo & Ho & Hnone). destruct HTn as (C & _ & Hall & _).
-    unfold ro. destruct (k_diff_any _ _ bfo (at_bf xn) (layer_of (t_m trn)) _ (t_m trn) _ (at_l xn) C Hall Ho Hnone) as (tt & r & E & Hr).
+    unfold ro. destruct (k_diff_any _ _ _ bfo (at_bf xn) (layer_of (t_m trn)) _ (t_m trn) _ (at_l xn) C Hall Ho Hnone) as (tt & r & E & Hr).
     rewrite E. split; [exact Hinv|]. rewrite Hr. destruct (Nat.ltb n (length (sdiff_obs (old_list (atr, aro) told) (at_l xn)))); reflexivity.
   - (* ODiffCur *)
     specialize (HT tn) as HTn. destruct (aget (w_trees w) tn) as [trn|] eqn:Et; destruct (aget atr tn) as [xn|] eqn:Ea; try contradiction; [|split; [exact Hinv|reflexivity]].
     destruct (old_side w (atr, aro) tn told xn trn Hinv Hs Ea Et) as (bfo & Ho & Hnone). destruct HTn as (C & _ & Hall & _).
-    unfold ro. destruct (k_diff_any _ _ bfo (at_bf xn) (layer_of (t_m trn)) _ (t_m trn) _ (at_l xn) C Hall Ho Hnone) as (tt & r & E & Hr).
+    unfold ro. destruct (k_diff_any _ _ _ bfo (at_bf xn) (layer_of (t_m trn)) _ (t_m trn) _ (at_l xn) C Hall Ho Hnone) as (tt & r & E & Hr).
     rewrite E. split; [exact Hinv|]. cbn [pobs]. rewrite Hr. reflexivity.
   - (* OIterStop *)
     specialize (HT t). destruct (aget (w_trees w) t) as [tr|] eqn:Et; destruct (aget atr t) as [x|] eqn:Ea; try contradiction; [|split; [exact Hinv|reflexivity]].
@@ -498,7 +584,7 @@ Definition list_okb (kind : N) (l : kvl) : bool := forallb (kv_okb kind) l && sm
 
 Lemma smallb_ok n : smallb n = true -> small n.
 Proof. unfold smallb, small. intros H. apply N.ltb_lt in H. exact H. Qed.
-Lemma list_okb_ok kind l : list_okb kind l = true -> list_ok kind l.
+Lemma list_okb_ok kind l : list_okb kind l = true -> Reload.list_ok FBin kind l.
 Proof.
   unfold list_okb. intros H. apply andb_true_iff in H. destruct H as [H1 H2]. split; [|exact (smallb_ok _ H2)].
   rewrite forallb_forall in H1. apply Forall_forall. intros x Hx. specialize (H1 x Hx). unfold kv_okb in H1.
@@ -537,17 +623,18 @@ Proof.
   destruct o; cbn [ncollb ncoll]; try (intros _; exact I). intros H x tr res Ex Em. rewrite Ex, Em in H. apply nocollb_ok. exact H.
 Qed.
 
+Definition nfmt_eqb (a b : nfmt) : bool := match a, b with FBin, FBin | FV1, FV1 => true | _, _ => false end.
 Definition same_homeb (a : aworld2) (tn : N) (told : option N) : bool :=
   match told with
   | Some i => match aget (fst a) tn, aget (fst a) i with
-              | Some x, Some y => N.eqb (at_s x) (at_s y) && N.eqb (at_kind x) (at_kind y)
+              | Some x, Some y => N.eqb (at_s x) (at_s y) && N.eqb (at_kind x) (at_kind y) && nfmt_eqb (at_fmt x) (at_fmt y)
               | _, _ => true end
   | None => true
   end.
 Definition supb (a : aworld2) (o : op) : bool :=
   match o with
-  | ONew _ _ bf f _ => match f with None | Some FBin => true | _ => false end && (2 <=? eff_bf bf)%N
-  | OIns t k v => match aget (fst a) t with Some x => list_okb (at_kind x) (aupsert k v (at_l x)) | None => true end
+  | ONew _ _ bf _ _ => (2 <=? eff_bf bf)%N
+  | OIns t k v => match aget (fst a) t with Some x => list_okb_f (at_fmt x) (at_kind x) (aupsert k v (at_l x)) | None => true end
   | ODel _ _ _ | OGet _ _ | OSize _ | OIter _ | OIterStop _ _ | OSeek _ _ | OSeekStop _ _ _ | OClone _ _ | OMakeRoot _ _ => true
   | OLoad r _ s kind => match aget (snd a) r with Some x => N.eqb (at_s x) s && N.eqb (at_kind x) kind | None => true end
   | ODiff tn told | ODiffCur tn told | ODiffStop tn told _ | ODiffFail tn told _ => same_homeb a tn told
@@ -557,14 +644,14 @@ Lemma same_homeb_ok a tn told : same_homeb a tn told = true -> same_home a tn to
 Proof.
   unfold same_homeb, same_home. destruct told as [i|]; [|intros _; exact I].
   destruct (aget (fst a) tn) as [x|]; [|intros _; exact I]. destruct (aget (fst a) i) as [y|]; [|intros _; exact I].
-  intros H. apply andb_true_iff in H. destruct H as [H1 H2]. apply N.eqb_eq in H1. apply N.eqb_eq in H2. split; assumption.
+  intros H. apply andb_true_iff in H. destruct H as [H H3]. apply andb_true_iff in H. destruct H as [H1 H2]. apply N.eqb_eq in H1. apply N.eqb_eq in H2.
+  split; [assumption|]. split; [assumption|]. destruct (at_fmt x), (at_fmt y); try discriminate; reflexivity.
 Qed.
 Lemma supb_ok a o : supb a o = true -> sup a o.
 Proof.
   destruct o; cbn [supb sup]; try discriminate; try (intros _; exact I); try apply same_homeb_ok.
-  - intros H. apply andb_true_iff in H. destruct H as [H1 H2]. split; [|apply N.leb_le; exact H2].
-    destruct f as [[|]|]; try discriminate; [right|left]; reflexivity.
-  - destruct (aget (fst a) t); [apply list_okb_ok|intros _; exact I].
+  - intros H. apply N.leb_le; exact H.
+  - destruct (aget (fst a) t); [apply list_okb_f_ok|intros _; exact I].
   - destruct (aget (snd a) r); [|intros _; exact I]. intros H. apply andb_true_iff in H. destruct H as [H1 H2].
     apply N.eqb_eq in H1. apply N.eqb_eq in H2. split; assumption.
 Qed.
